@@ -459,6 +459,7 @@ def plan(tier, seed):
     for signame in ('default', 'every', 'every-nounknown'):
         shards += [('enum', signame, L, k) for k in range(NSHARDS)]
         shards += [('enum', signame, -(L + 1), k) for k in range(NSHARDS)]
+    shards += [('parforms', signame) for signame in ('default', 'every')]
     return {'shards': shards, 'bounds': {'documents': n, 'depth': 3, 'contexts': list(CTXS),
                                          'exhaustive_items': L,
                                          'catalogue_sizes': {c: len(catalogue(c)) for c in
@@ -469,10 +470,32 @@ def plan(tier, seed):
                                  'arg:group[', 'arg:group<', 'math:$', 'math:$$', 'math:\\(',
                                  'math:\\[', 'par', 'comment', 'specials', 'absent-arg',
                                  'blank-between-begin-and-name', 'ctx:default', 'ctx:every', 'ctx:every-strings',
-                                 'ctx:every-nounknown', 'enumerated-derivation']}
+                                 'ctx:every-nounknown', 'enumerated-derivation',
+                                 'constructed-paragraph-form']}
+
+
+def par_forms():
+    """written paragraph breaks whose blank line holds blanks / tabs: after a comment (whose own
+    line end is the first of the two newlines), a group and plain text"""
+    T = lambda s: ['text', s]
+    fills = ['', ' ', '\t', ' \t ', '\t\t']
+    tails = ['', ' ', '\t']
+    for f in fills:
+        for t in tails:
+            for eol in ('\n', '\n ', '\n\t'):
+                yield [T('a'), ['comment', 'c', eol], ['par', f + '\n' + t], T('b')]
+                yield [['comment', '', eol], ['par', f + '\n' + t], ['group', [T('b')]]]
+            yield [T('a'), ['par', '\n' + f + '\n' + t], T('b')]
+            yield [['group', [T('a')]], ['par', '\n' + f + '\n' + t], T('b')]
 
 
 def run_shard(shard, res):
+    if shard[0] == 'parforms':
+        for ast in par_forms():
+            check_doc(shard[1], ast, res)
+            res.label('constructed-paragraph-form')
+        res.exhaustive = True
+        return
     if shard[0] == 'enum':
         import itertools
         import copy
